@@ -306,7 +306,8 @@ def r3(db, rep):
             return None
 
         def mentions_type(n):
-            return any(is_type_ref(x) for x in facts.walk(n))
+            # (named locals holding the two types are read through)
+            return any(is_type_ref(x) for x in facts.walk(facts.inline_locals(f, n, kinds=("int", "enum"))))
 
         def evaluate(q, p, flip=None):
             seen = []
